@@ -13,7 +13,7 @@ PY
 for d in benign/*/; do
   n=$(basename $d)
   git -C ${SCRATCH:-/tmp/seedrun} checkout -q -- .
-  if ! git -C ${SCRATCH:-/tmp/seedrun} apply $d/patch.diff 2>/dev/null; then echo "$n patch-does-not-apply"; continue; fi
+  if ! git -C ${SCRATCH:-/tmp/seedrun} apply "$PWD/$d/patch.diff" 2>/dev/null; then echo "$n patch-does-not-apply"; continue; fi
   files=$(git -C ${SCRATCH:-/tmp/seedrun} diff --name-only | tr '\n' ' ')
   props=$(python3 -c "
 import json,sys
